@@ -79,15 +79,22 @@ def func_ast(f):
     if code.co_name == '<lambda>':
         cands = index.get(('Lambda', code.co_firstlineno), [])
         if len(cands) > 1:
-            # several lambdas on one line: match by argument names
-            names = code.co_varnames[:code.co_argcount + code.co_kwonlyargcount]
-            c2 = [c for c in cands if tuple(a.arg for a in c.args.args + c.args.kwonlyargs) == names[:len(c.args.args) + len(c.args.kwonlyargs)]]
-            if len(c2) >= 1:
-                # still ambiguous: pick by order of co_consts appearance is not available; take by body dump uniqueness
-                if len(c2) > 1:
-                    import dis
-                    raise Unsupported('ambiguous lambda at %s:%d' % (fn, code.co_firstlineno))
-                cands = c2
+            # several lambdas on one line: match by the full parameter list
+            def sig(c):
+                a = c.args
+                return ([x.arg for x in a.posonlyargs + a.args], a.vararg and a.vararg.arg,
+                        [x.arg for x in a.kwonlyargs], a.kwarg and a.kwarg.arg)
+            n = code.co_argcount + code.co_kwonlyargcount
+            names = list(code.co_varnames)
+            want_args = names[:code.co_argcount]
+            want_kwonly = names[code.co_argcount:n]
+            rest = names[n:]
+            want_var = rest.pop(0) if code.co_flags & 0x04 else None
+            want_kw = rest.pop(0) if code.co_flags & 0x08 else None
+            c2 = [c for c in cands if sig(c) == (want_args, want_var, want_kwonly, want_kw)]
+            if len(c2) != 1:
+                raise Unsupported('ambiguous lambda at %s:%d' % (fn, code.co_firstlineno))
+            cands = c2
         if not cands:
             # multi-line lambda: firstlineno is the line of 'lambda'
             for (k, ln), v in index.items():
@@ -342,7 +349,10 @@ def truth_term(v):
     if isinstance(v, SInt):
         return tm.mk_ne(v.t, tm.const(0))
     if isinstance(v, SReal):
-        return tm.mk_ne(v.t, tm.const(Fraction(0)))
+        nz = tm.mk_ne(v.t, tm.const(Fraction(0)))
+        if v.fin is not None and not (v.fin.is_const and v.fin.val):
+            return tm.mk_or(tm.mk_not(v.fin), nz)       # inf and nan are truthy
+        return nz
     if isinstance(v, SStr):
         return tm.mk_ne(v.t, tm.const(''))
     if isinstance(v, (SDec, SErr)):
@@ -840,7 +850,7 @@ class Interp:
         if isinstance(v, SBool):
             return SInt(tm.mk_neg(self.int_term(v)))
         if isinstance(v, SReal):
-            return SReal(tm.mk_neg(v.t))
+            return SReal(tm.mk_neg(v.t), v.fin)
         if isinstance(v, (int, float)):
             return -v
         return self.unop_other('-', v)
